@@ -599,12 +599,17 @@ func (e *Engine) analyzeLoop(fn *ssa.Function, li *loopInfo) {
 	seen := map[*ssa.Alloc]bool{}
 	for b := range li.body {
 		for _, in := range b.Instrs {
-			e.instrEffects(in, func(a *ssa.Alloc) {
+			addCell := func(a *ssa.Alloc) {
 				if !seen[a] {
 					seen[a] = true
 					li.cells = append(li.cells, a)
 				}
-			}, li.heaps, func(f *ssa.Function) { li.calls = append(li.calls, f) }, func() { li.hasUnknownCall = true })
+			}
+			e.instrEffects(in, addCell, li.heaps, func(f *ssa.Function) { li.calls = append(li.calls, f) }, func() { li.hasUnknownCall = true })
+			if ci, ok := in.(ssa.CallInstruction); ok {
+				// calls that leave the repository: assumed contracts' frames, or whatever the arguments reach (loopfx.go)
+				e.libCallEffects(ci, addCell, li.heaps)
+			}
 		}
 	}
 }
